@@ -41,12 +41,8 @@ Proof. unfold gz_extra. rewrite zlen_app'. reflexivity. Qed.
 Lemma zlen_le32 x : zlen (le32 x) = 4.
 Proof. reflexivity. Qed.
 
-Section Laws.
-  Variable deflate : Z -> list Z -> list Z.
-  Variable inflate : list Z -> option (list Z * list Z).
-  Variable crc32 : list Z -> Z.
-  Hypothesis inflate_deflate : forall l d rest, inflate (deflate l d ++ rest) = Some (d, rest).
-
+(** ---- parsing, independent of the codec ------------------------------- *)
+Section Parse.
   Lemma take_app a b : take (zlen a) (a ++ b) = Some (a, b).
   Proof.
     unfold take. pose proof (zlen_nonneg a). pose proof (zlen_nonneg b).
@@ -123,6 +119,61 @@ Section Laws.
     rewrite F3. reflexivity.
   Qed.
 
+  Lemma walk_concat (one : list Z -> option (list Z * list Z)) :
+    forall ms ps fuel tail dt,
+      Forall2 (fun m p => m <> [] /\ forall r, one (m ++ r) = Some (p, r)) ms ps ->
+      (length ms < fuel)%nat ->
+      walk one (fuel - length ms) tail = Some dt ->
+      walk one fuel (concat ms ++ tail) = Some (concat ps ++ dt).
+  Proof.
+    intros ms ps fuel tail dt HF. revert fuel.
+    induction HF as [|m p ms ps [Hne Hone] HF IH]; intros fuel Hlt Ht.
+    - cbn in *. rewrite Nat.sub_0_r in Ht. assumption.
+    - cbn [length] in Hlt, Ht. destruct fuel as [|fuel]; [lia|].
+      cbn [concat walk]. rewrite <- app_assoc.
+      replace (isnil (m ++ concat ms ++ tail)) with false by (destruct m; [congruence|reflexivity]).
+      rewrite Hone. rewrite (IH fuel); [|lia|].
+      + rewrite <- app_assoc. reflexivity.
+      + replace (fuel - length ms)%nat with (S fuel - S (length ms))%nat by lia. assumption.
+  Qed.
+
+  Lemma walk_nil one fuel : (0 < fuel)%nat -> walk one fuel [] = Some [].
+  Proof. destruct fuel; [lia|reflexivity]. Qed.
+
+  Lemma length_concat_ge (ms : list (list Z)) :
+    Forall (fun m => m <> []) ms -> (length ms <= length (concat ms))%nat.
+  Proof.
+    induction 1 as [|m ms Hm _ IH]; cbn; [lia|]. rewrite app_length.
+    destruct m; [congruence|]. cbn. lia.
+  Qed.
+
+  Lemma patch_16_17 (pre rest : list Z) (v0 v1 : Z) :
+    zlen pre = 12 ->
+    updz (updz (pre ++ [66; 67; 2; 0; 0; 0] ++ rest) (12 + 4) v0) (12 + 5) v1
+    = pre ++ [66; 67; 2; 0; v0; v1] ++ rest.
+  Proof.
+    intros H. unfold zlen in H.
+    destruct pre as [|a0 [|a1 [|a2 [|a3 [|a4 [|a5 [|a6 [|a7 [|a8 [|a9 [|a10 [|a11 [|a12 pre]]]]]]]]]]]]];
+      cbn [length] in H; try lia.
+    reflexivity.
+  Qed.
+
+  Definition hdr_small (h : gzhdr) : Prop := hdr_len h <= 217.
+
+  (** What the proofs need from the back-patch: it hits offset 12. *)
+  Definition patch_at_12 (pm : wr_patch) (guard : bool) : Prop :=
+    forall pre x0 x1 rest, zlen pre = 12 ->
+      patch_pos pm guard (pre ++ [66; 67; 2; 0; x0; x1] ++ rest) = Some 12.
+
+  Definition pre12 (lvl : Z) (h : gzhdr) : list Z :=
+    [31; 139; 8; gz_flg h] ++ le32 (gz_mtime h) ++ [gz_xfl lvl; h_os h mod 256] ++ le16 (zlen (gz_extra h)).
+
+End Parse.
+
+Section Member.
+  Variable deflate : Z -> list Z -> list Z.
+  Variable crc32 : list Z -> Z.
+
   Lemma zlen_gz_trailer p : zlen (gz_trailer crc32 p) = 8.
   Proof. reflexivity. Qed.
 
@@ -133,6 +184,111 @@ Section Laws.
   Lemma zlen_member_bs lvl h s0 s1 p :
     zlen (member_bs lvl h s0 s1 p) = hdr_len h + zlen (deflate lvl p) + 8.
   Proof. unfold member_bs. rewrite !zlen_app', zlen_gz_header_bs, zlen_gz_trailer. lia. Qed.
+
+  Lemma raw_member_shape lvl h p :
+    raw_member deflate crc32 lvl h p
+    = pre12 lvl h ++ [66; 67; 2; 0; 0; 0]
+      ++ (h_extra h ++ zstr (h_name h) ++ zstr (h_comment h)) ++ deflate lvl p ++ gz_trailer crc32 p.
+  Proof.
+    unfold raw_member, gz_header, pre12, gz_extra, bgzf_bgzfExtra. rewrite <- !app_assoc. reflexivity.
+  Qed.
+
+  Lemma member_bs_shape lvl h s0 s1 p :
+    member_bs lvl h s0 s1 p
+    = pre12 lvl h ++ [66; 67; 2; 0; s0; s1]
+      ++ (h_extra h ++ zstr (h_name h) ++ zstr (h_comment h)) ++ deflate lvl p ++ gz_trailer crc32 p.
+  Proof.
+    unfold member_bs, gz_header_bs, pre12. rewrite <- !app_assoc. reflexivity.
+  Qed.
+
+  Lemma zlen_raw_member lvl h p :
+    zlen (raw_member deflate crc32 lvl h p) = hdr_len h + zlen (deflate lvl p) + 8.
+  Proof.
+    unfold raw_member. rewrite !zlen_app', gz_header_is_bs, zlen_gz_header_bs, zlen_gz_trailer. lia.
+  Qed.
+
+  Definition bsize_of (lvl : Z) (h : gzhdr) (p : list Z) : Z := hdr_len h + zlen (deflate lvl p) + 8 - 1.
+
+  Definition member_of (lvl : Z) (h : gzhdr) (p : list Z) : list Z :=
+    member_bs lvl h (bsize_of lvl h p mod 256) ((bsize_of lvl h p / 256) mod 256) p.
+
+  Lemma zlen_member_of lvl h p : zlen (member_of lvl h p) = bsize_of lvl h p + 1.
+  Proof. unfold member_of. rewrite zlen_member_bs. unfold bsize_of. lia. Qed.
+
+  Lemma member_of_nonempty lvl h p : member_of lvl h p <> [].
+  Proof.
+    intros H. pose proof (zlen_member_of lvl h p) as Hz. rewrite H in Hz. cbn in Hz.
+    unfold bsize_of in Hz. pose proof (zlen_nonneg (deflate lvl p)).
+    unfold hdr_len in Hz. pose proof (zlen_nonneg (h_extra h)). pose proof (zlen_nonneg (zstr (h_name h))).
+    pose proof (zlen_nonneg (zstr (h_comment h))). lia.
+  Qed.
+
+End Member.
+
+Section Bound.
+  Variable deflate : Z -> list Z -> list Z.
+  Variable crc32 : list Z -> Z.
+  Hypothesis deflate_bound : forall l d,
+    zlen (deflate l d) <= zlen d + zlen d / 2^12 + zlen d / 2^14 + zlen d / 2^25 + 13.
+  Local Notation bsize_of := (bsize_of deflate).
+  Local Notation member_of := (member_of deflate crc32).
+  Local Notation member_bs := (member_bs deflate crc32).
+
+  Lemma bsize_small lvl h p :
+    hdr_small h -> zlen p <= bgzf_BlockSize -> 0 <= bsize_of lvl h p < 65536.
+  Proof.
+    intros Hs Hp. unfold bsize_of, hdr_small in *.
+    pose proof (deflate_bound lvl p) as Hb.
+    change (2 ^ 12) with 4096 in Hb. change (2 ^ 14) with 16384 in Hb. change (2 ^ 25) with 33554432 in Hb.
+    pose proof (zlen_nonneg p). pose proof (zlen_nonneg (deflate lvl p)).
+    unfold bgzf_BlockSize in Hp.
+    assert (0 <= hdr_len h).
+    { unfold hdr_len. pose proof (zlen_nonneg (h_extra h)). pose proof (zlen_nonneg (zstr (h_name h))).
+      pose proof (zlen_nonneg (zstr (h_comment h))). lia. }
+    lia.
+  Qed.
+
+  Lemma write_block_ok pm guard ovf lvl h p :
+    patch_at_12 pm guard -> hdr_legal h -> hdr_small h -> zlen p <= bgzf_BlockSize ->
+    write_block deflate crc32 pm guard ovf lvl h [] p = Ok (member_of lvl h p).
+  Proof.
+    intros Hpa Hl Hs Hp. unfold write_block. rewrite Hl. cbn [app]. unfold finish_block.
+    rewrite raw_member_shape.
+    assert (H12 : zlen (pre12 lvl h) = 12) by reflexivity.
+    rewrite (Hpa (pre12 lvl h) 0 0 _ H12).
+    rewrite <- raw_member_shape. rewrite zlen_raw_member.
+    fold (bsize_of lvl h p).
+    pose proof (bsize_small lvl h p Hs Hp) as Hb.
+    replace (bgzf_MaxBlockSize <=? bsize_of lvl h p) with false
+      by (symmetry; apply Z.leb_gt; unfold bgzf_MaxBlockSize; lia).
+    rewrite andb_false_r.
+    rewrite raw_member_shape. rewrite patch_16_17 by assumption.
+    unfold member_of. rewrite member_bs_shape. reflexivity.
+  Qed.
+
+  Lemma member_of_fields lvl h p :
+    hdr_small h -> zlen p <= bgzf_BlockSize ->
+    firstn 4 (skipn 12 (member_of lvl h p)) = [66; 67; 2; 0]
+    /\ getz (member_of lvl h p) 16 + 256 * getz (member_of lvl h p) 17 = zlen (member_of lvl h p) - 1
+    /\ zlen (member_of lvl h p) <= 65536.
+  Proof.
+    intros Hs Hp. pose proof (bsize_small lvl h p Hs Hp) as Hb.
+    rewrite zlen_member_of. unfold member_of at 1 2 3. rewrite member_bs_shape.
+    unfold pre12, le32, le16. cbn [app]. unfold getz.
+    change (Z.to_nat 16) with 16%nat. change (Z.to_nat 17) with 17%nat.
+    cbn [nth skipn firstn].
+    repeat split; try lia.
+  Qed.
+
+End Bound.
+
+Section Inverse.
+  Variable deflate : Z -> list Z -> list Z.
+  Variable inflate : list Z -> option (list Z * list Z).
+  Variable crc32 : list Z -> Z.
+  Hypothesis inflate_deflate : forall l d rest, inflate (deflate l d ++ rest) = Some (d, rest).
+  Local Notation member_of := (member_of deflate crc32).
+  Local Notation member_bs := (member_bs deflate crc32).
 
   Lemma gunzip_member_ok lvl h s0 s1 p rest :
     hdr_legal h ->
@@ -168,36 +324,26 @@ Section Laws.
     rewrite gunzip_member_ok by assumption. reflexivity.
   Qed.
 
-  (** ---- walking a concatenation of members ------------------------------ *)
-  Lemma walk_concat (one : list Z -> option (list Z * list Z)) :
-    forall ms ps fuel tail dt,
-      Forall2 (fun m p => m <> [] /\ forall r, one (m ++ r) = Some (p, r)) ms ps ->
-      (length ms < fuel)%nat ->
-      walk one (fuel - length ms) tail = Some dt ->
-      walk one fuel (concat ms ++ tail) = Some (concat ps ++ dt).
+  Lemma member_of_gunzip lvl h p rest :
+    hdr_legal h -> gunzip_member inflate crc32 (member_of lvl h p ++ rest) = Some (p, rest).
+  Proof. intros Hl. unfold member_of. apply gunzip_member_ok. assumption. Qed.
+
+  Hypothesis deflate_bound : forall l d,
+    zlen (deflate l d) <= zlen d + zlen d / 2^12 + zlen d / 2^14 + zlen d / 2^25 + 13.
+
+  Lemma member_of_bgzf lvl h p rest :
+    hdr_legal h -> hdr_small h -> zlen p <= bgzf_BlockSize ->
+    bgzf_member inflate crc32 (member_of lvl h p ++ rest) = Some (p, rest).
   Proof.
-    intros ms ps fuel tail dt HF. revert fuel.
-    induction HF as [|m p ms ps [Hne Hone] HF IH]; intros fuel Hlt Ht.
-    - cbn in *. rewrite Nat.sub_0_r in Ht. assumption.
-    - cbn [length] in Hlt, Ht. destruct fuel as [|fuel]; [lia|].
-      cbn [concat walk]. rewrite <- app_assoc.
-      replace (isnil (m ++ concat ms ++ tail)) with false by (destruct m; [congruence|reflexivity]).
-      rewrite Hone. rewrite (IH fuel); [|lia|].
-      + rewrite <- app_assoc. reflexivity.
-      + replace (fuel - length ms)%nat with (S fuel - S (length ms))%nat by lia. assumption.
+    intros Hl Hs Hp. assert (Hb : 0 <= bsize_of deflate lvl h p < 65536) by (eapply bsize_small; eassumption).
+    unfold Bgzf.member_of. apply bgzf_member_ok; try assumption; try lia.
+    rewrite zlen_member_bs. unfold bsize_of in *. lia.
   Qed.
+End Inverse.
 
-  Lemma walk_nil one fuel : (0 < fuel)%nat -> walk one fuel [] = Some [].
-  Proof. destruct fuel; [lia|reflexivity]. Qed.
-
-  Lemma length_concat_ge (ms : list (list Z)) :
-    Forall (fun m => m <> []) ms -> (length ms <= length (concat ms))%nat.
-  Proof.
-    induction 1 as [|m ms Hm _ IH]; cbn; [lia|]. rewrite app_length.
-    destruct m; [congruence|]. cbn. lia.
-  Qed.
-
-  (** ---- the EOF marker --------------------------------------------------- *)
+Section Eof.
+  Variable inflate : list Z -> option (list Z * list Z).
+  Variable crc32 : list Z -> Z.
   Hypothesis inflate_empty : forall rest, inflate (3 :: 0 :: rest) = Some ([], rest).
   Hypothesis crc32_nil : crc32 [] = 0.
 
@@ -231,4 +377,5 @@ Section Laws.
     rewrite (take_app_n (27 + 1) bgzf_magicBlock rest) by reflexivity.
     rewrite <- (app_nil_r bgzf_magicBlock) at 1. rewrite gunzip_magic. reflexivity.
   Qed.
-End Laws.
+
+End Eof.
